@@ -64,14 +64,9 @@ Section QueueSteps.
         rewrite (find_f_clear_comm (t_id c) q0 (g_roots g) c ND Hf).
         - rewrite E. simpl. f_equal. apply upd_t_notin. intro Hc. apply (D _ Hc). apply tids_self.
         - intro Hk. apply (D q0); [rewrite <- Eq; apply tids_self|]. destruct c. rewrite tids_T. right. exact Hk. }
-      clear H1. induction Hr as [|q0 tq ql qr' [A0 B0] _ IH]; constructor.
+      clear H1 H2 H3. induction Hr as [|q0 tq ql qr' [A0 B0] _ IH]; constructor.
       + split; [simpl; apply Hq; [left; reflexivity | exact A0] | exact B0].
-      + apply IH; [rewrite fids_cons in H2; rewrite app_assoc in H2; apply NoDup_app_l in H2 |..].
-        * rewrite fids_cons in *. apply NoDup_app_intro; [eapply NoDup_app_l; exact H2 | | ].
-          -- apply NoDup_app_r in H2. eapply NoDup_app_r. exact H2.
-          -- intros x Hx1 Hx2. eapply NoDup_app_disj; [exact H2 | exact Hx1 | apply in_app_iff; right; exact Hx2].
-        * intros d Hd Hi. apply (H3 d Hd). rewrite !fids_cons in *. rewrite !in_app_iff in *. tauto.
-        * intros q1 tq1 Ht. apply Hq. right. exact Ht.
+      + apply IH. intros q1 tq1 Ht. apply Hq. right. exact Ht.
     - eapply NoDup_app_r; exact H2.
     - intros d Hd Hi. apply in_app_iff in Hd as [Hd|[Hd|[]]].
       + apply (H3 d Hd). rewrite fids_cons. apply in_app_iff. right. exact Hi.
